@@ -246,34 +246,59 @@ def expected_changes(new_files: Dict[str, str], old_files: Dict[str, str]) -> Di
     for lname in [mn.layers[i].name for i in mn.order]:
         if lname not in names_old:
             continue
-        sn = {i: n for n, i in mn.applicable_services(names_new[lname]).items()}
-        so = {i: n for n, i in mo.applicable_services(names_old[lname]).items()}
-        for m, tab in ((mn, sn), (mo, so)):
-            pf = [m.service_prefix(i) for i in tab]
-            if any(p is None for p in pf):
-                res["ambiguous"] = f"{lname}: a request prefix is not computable"
-            elif len(set(pf)) != len(pf):
-                res["ambiguous"] = f"{lname}: two services share a constant request prefix"
-        e: Dict[str, Any] = {"new": [], "deleted": [], "renamed": [], "changed": [], "params": {}, "prefix_changed": [],
-                             "n_new": len(sn), "n_old": len(so)}
-        for i, n in sn.items():
-            if i not in so:
-                e["new"].append(n)
-                continue
-            if so[i] != n:
-                e["renamed"].append([n, so[i]])
-            a, b = mo.service_messages(i), mn.service_messages(i)
-            if [canon(x) for _, x in a] != [canon(x) for _, x in b] or [t for t, _ in a] != [t for t, _ in b]:
-                if so[i] == n:
-                    e["changed"].append(n)
-                e["params"][n] = changed_params(a, b)
-            if mo.service_prefix(i) != mn.service_prefix(i):
-                e["prefix_changed"].append(n)
-        for i, n in so.items():
-            if i not in sn:
-                e["deleted"].append(n)
+        e, amb = layer_diff(mn, names_new[lname], mo, names_old[lname])
+        if amb:
+            res["ambiguous"] = amb
         res["layers"][lname] = e
     return res
+
+
+def layer_diff(mn: Model, lid_new: str, mo: Model, lid_old: str) -> Tuple[Dict[str, Any], Optional[str]]:
+    """difference of the services applicable to layer lid_new of mn against layer lid_old of mo, by service ID"""
+    amb: Optional[str] = None
+    sn = {i: n for n, i in mn.applicable_services(lid_new).items()}
+    so = {i: n for n, i in mo.applicable_services(lid_old).items()}
+    for m, tab, lid in ((mn, sn, lid_new), (mo, so, lid_old)):
+        pf = [m.service_prefix(i) for i in tab]
+        if any(p is None for p in pf):
+            amb = f"{m.layers[lid].name}: a request prefix is not computable"
+        elif len(set(pf)) != len(pf):
+            amb = f"{m.layers[lid].name}: two services share a constant request prefix"
+    e: Dict[str, Any] = {"new": [], "deleted": [], "renamed": [], "changed": [], "params": {}, "prefix_changed": [],
+                         "n_new": len(sn), "n_old": len(so)}
+    for i, n in sn.items():
+        if i not in so:
+            e["new"].append(n)
+            continue
+        if so[i] != n:
+            e["renamed"].append([n, so[i]])
+        a, b = mo.service_messages(i), mn.service_messages(i)
+        if [canon(x) for _, x in a] != [canon(x) for _, x in b] or [t for t, _ in a] != [t for t, _ in b]:
+            if so[i] == n:
+                e["changed"].append(n)
+            e["params"][n] = changed_params(a, b)
+        if mo.service_prefix(i) != mn.service_prefix(i):
+            e["prefix_changed"].append(n)
+    for i, n in so.items():
+        if i not in sn:
+            e["deleted"].append(n)
+    # a name that both layers use for DIFFERENT services (override by short name) is neither clearly a change nor a
+    # deletion plus an addition
+    if {n for i, n in sn.items() if i not in so} & {n for i, n in so.items() if i not in sn}:
+        amb = "one short name denotes different services in the two layers"
+    return e, amb
+
+
+def expected_layer_pairs(files: Dict[str, str]) -> Dict[str, Any]:
+    """every ordered pair of DIFFERENT layers of one database: {"new/old": (diff, ambiguous)}"""
+    m = Model(files)
+    out: Dict[str, Any] = {}
+    for a in m.order:
+        for b in m.order:
+            if a != b:
+                e, amb = layer_diff(m, a, m, b)
+                out[m.layers[a].name + "/" + m.layers[b].name] = {"diff": e, "ambiguous": amb}
+    return out
 
 
 def metrics(files: Dict[str, str]) -> Dict[str, Dict[str, Any]]:
